@@ -225,6 +225,11 @@ func clauseIdents(c *Contract) map[string]bool {
 			add(cl.Text)
 		}
 	}
+	for _, cs := range c.LoopEntry {
+		for _, cl := range cs {
+			add(cl.Text)
+		}
+	}
 	for _, as := range append(append(append([]*AtSend{}, c.AtCall...), c.AtRead...), c.AtSend...) {
 		add(as.Clause.Text)
 	}
